@@ -1197,6 +1197,23 @@ def check_C10(run):
         if not ans.startswith(mwant + ' '):
             disagree.append(dict(layer='link', request_line=hl[k], impl=ans, model=mwant))
     run.cov['disagreements_checked'] += len(cases)
+    # messages around and beyond the frame buffer (8 MiB): a sender may refuse such a message (nothing of it reaches the wire: 'send-failed'),
+    # but if frames go out, every one has its own nonce, a duplicate of the big frame is refused, and what is delivered is an in-order prefix
+    big_cases = []
+    for dir_ in ('d', 'b'):
+        for size in ([8388000, 9000000] if not thorough else [8388000, 8388500, 8388607, 8388700, 9000000, 20_000_000]):
+            honest_b, honest_d = [f'fb{i}' for i in range(3)], [f'fd{i}' for i in range(3)]
+            big_cases.append((dir_, size, honest_b, honest_d))
+            if dir_ == 'd': big_cases.append((dir_, size, honest_b, ['fd0', 'fd1', 'fd1', 'fd2']))
+            else: big_cases.append((dir_, size, ['fb0', 'fb1', 'fb1', 'fb2'], honest_d))
+    bl = [f'mitm {key} 3 3 {len(td)} ' + ' '.join(td) + f' {len(tb)} ' + ' '.join(tb) + f' big:{dir_}:1:{size}' for dir_, size, td, tb in big_cases]
+    bans = [a for a, _ in C.run_harness(bl, timeout=1800)]
+    for l_, (dir_, size, td, tb), ans in zip(bl, big_cases, bans):
+        run.case(('mitm-big', l_), True, sample=dict(layer='link', oversize_message_bytes=size, direction=dir_, impl=ans) if size == 9000000 and td == [f'fb{i}' for i in range(3)] else None)
+        run.count('link:oversize:' + ('refused-by-sender' if ans == 'send-failed' else 'sent')); run.cov['traces_validated_against_impl'] += 1
+        want = 'toDoer=[%s] toBoss=[%s] reuse=0' % (','.join(map(str, c10_expected(td, 'b'))), ','.join(map(str, c10_expected(tb, 'd'))))
+        if ans != 'send-failed' and ans != want:
+            oracle_fail.append(dict(layer='link', request_line=l_, oversize_message_bytes=size, delivered_to_doer=td, delivered_to_boss=tb, impl=ans, oracle_expects=want + ' (or the sender refuses the message)'))
 
     def on_broken(failed):
         if oracle_fail:
@@ -1924,6 +1941,13 @@ def oracle_consent_behaviours(r):
     return None
 
 
+def oracle_no_panic(r):
+    """the boss does not panic, whatever the doers answer and in whatever order their listings arrive (C18; a panic here is exit status 101)"""
+    if r['impl_r'].get('res') == 'panic':
+        return 'the boss (sync()) panicked: ' + str(r['impl_r'].get('panic_msg', ''))[:200]
+    return None
+
+
 def oracle_prompt_consent(r):
     """behaviour = prompt: a deletion / an overwrite in a category needs an affirmative answer given to a prompt *of that category*
     in this run (read off the prompts the implementation printed and the answers it was fed, position by position) — an answer
@@ -2155,7 +2179,7 @@ def general_l2(run, n=None, label='general-traces'):
                               ('consent-error-untouched', oracle_consent_error_untouched), ('behaviours', oracle_consent_behaviours), ('prompt-consent', oracle_prompt_consent), ('equal-untouched', oracle_equal_untouched),
                               ('failure-reported', oracle_failure_reported), ('summary', oracle_summary), ('relay', oracle_relay),
                               ('failed-delete-no-creation', oracle_failed_delete_no_creation), ('no-command-through-link', oracle_no_command_through_link),
-                              ('same-filters', oracle_same_filters), ('order', oracle_order)]
+                              ('same-filters', oracle_same_filters), ('order', oracle_order), ('no-panic', oracle_no_panic)]
     rng = run.rng
     n = n or (600 if run.tier != 'thorough' else 6000)
     scs = gen_mixed(rng, n)
@@ -3213,6 +3237,9 @@ def check_C18(run):
         return dict(found_by='CLI fuzz / recorded witness', **fails[0]) if fails else None
     C.proofs_step(run, 'C18', on_broken)
     from . import trials as _trials; _trials.run_trials(run, 'C18')
+    # the boss against scripted doers on mixed scenarios in forced arrival orders: a panic of the boss (e.g. an unwrap in the planner's maps that
+    # only one arrival order reaches) is an outcome the L2 stream reports
+    general_l2(run)
     if fails and not any(not v[1] for v in run.violations):
         run.violation(dict(kind='oracle-failed-on-implementation', oracle='documented exit status, a message on failure, never a panic / signal / time-out', failing_cases=len(fails), **fails[0]))
     st = run.extract_status
